@@ -1,6 +1,6 @@
 PROP = dict(
     module="M3d.Props.C14",
-    corr=dict(quick=150, thorough=1200),
+    corr=dict(quick=400, thorough=2500),
     gen=[],
     corr_theorems=(
         "M3d.C14.triangulation_certificate_sound (+ cert_area_redundant, triangulation_cover_partial): the driver "
